@@ -234,7 +234,7 @@ theorem fill_flat (w : PW) (lim : Option Nat) (ord : Kvs → Kvs) (ha : w.o.alig
     | arr xs =>
       have hb : build w.o ord (f + 1) (.arr xs) = .arr (xs.map (build w.o ord f))
           (arrSize (xs.map (build w.o ord f)) 0 2) (arrDepth (xs.map (build w.o ord f)) 0)
-          ((w.o.omitNil || w.o.omitEmpty) && xs.length = 0) := by simp [build]
+          (w.o.omitEmpty && xs.length = 0) := by simp [build]
       have hl : layoutOf w d (flat || (d * w.indent + arrSize (xs.map (build w.o ord f)) 0 2 < w.width &&
           arrDepth (xs.map (build w.o ord f)) 0 < w.o.maxDepth)) = lay w ord (f + 1) (.arr xs) d flat := by
         simp [lay, hb, PNode.size, PNode.depth]
@@ -266,8 +266,7 @@ theorem fill_flat (w : PW) (lim : Option Nat) (ord : Kvs → Kvs) (ha : w.o.alig
           ((keptP w ord f kvs).map fun kv => (jsonString kv.1 (!w.o.htmlUnsafe), build w.o ord f kv.2))
           (buildMembers w.o (build w.o ord f) (sortKvs (ord kvs)) [] 2 0).2.1
           (buildMembers w.o (build w.o ord f) (sortKvs (ord kvs)) [] 2 0).2.2
-          ((w.o.omitNil || w.o.omitEmpty) &&
-            ((keptP w ord f kvs).map fun kv => (jsonString kv.1 (!w.o.htmlUnsafe), build w.o ord f kv.2)).length = 0) := by
+          (w.o.omitEmpty && kvs.length = 0) := by
         simp only [build, hm]
       have hl : layoutOf w d (flat || (d * w.indent + (buildMembers w.o (build w.o ord f) (sortKvs (ord kvs)) [] 2 0).2.1 < w.width &&
           (buildMembers w.o (build w.o ord f) (sortKvs (ord kvs)) [] 2 0).2.2 < w.o.maxDepth)) =
